@@ -4,26 +4,30 @@ import json, os
 ENV = "GOFLAGS=-mod=mod GOPROXY=off GOSUMDB=off GOTOOLCHAIN=local"
 SETUP = f"cd /verif && env -u GOWORK {ENV} go build -o bin/astisubcheck ./cmd/astisubcheck"
 TECH = {
- "C09": "interprocedural mod-set (effect) analysis: frame condition of Add",
- "C10": "interprocedural mod-set (effect) analysis: frame condition of Fragment",
- "C11": "interprocedural mod-set (effect) analysis: frame condition of Unfragment",
- "C12": "effect analysis: frame conditions of Order and Merge",
- "C13": "effect analysis: frame conditions of Optimize and RemoveStyling",
- "C14": "effect analysis: frame condition of ForceDuration",
- "C15": "effect analysis: frame condition of ApplyLinearCorrection",
+ "C07": "extraction and agreement of the Open/Write extension switch tables and of the CLI sub-command table from SSA; dominance check of the empty-list guard; non-nil dataflow over the writers' closure",
+ "C08": "forward must-dataflow of non-nil / numeric facts over access paths (nil dereference, nil-map store), difference-constraint bounds proofs for every index/slice, division / type-assertion / explicit-panic rules, loop progress classification; interprocedural parameter and result summaries",
+ "C09": "effect analysis (frame of Add) + expression-tree isomorphism of the StartAt/EndAt updates + delete-rewind path rule + CLI table",
+ "C10": "effect analysis (frame of Fragment) + whole-copy rule on allocated items + must-pass-through Order() + CLI table",
+ "C11": "effect analysis (frame of Unfragment) + delete-rewind path rule + dominance of Order() over the scan + read-set of the text-identity function + CLI table",
+ "C12": "effect analysis (frames of Order/Merge) + shape rules on the sort call, its comparator, the merge append and the add-if-absent guard + non-nil dataflow for map stores + CLI table",
+ "C13": "effect analysis (frames) + model-derived rules: reference-edge read coverage of the marking code, styling-field write coverage of RemoveStyling, guard and range-key rules + CLI table",
+ "C14": "effect analysis (frame of ForceDuration) + control-dependence of the filler on the flag + dominance of the equal-duration return",
+ "C15": "effect analysis (frame of ApplyLinearCorrection) + expression-tree isomorphism of the two boundary updates + CLI argument order",
  "C17": "dataflow of io.Reader parameters into a whitelist of chunk-agnostic consumers + zero-rule on raw Read + path enumeration of the bufio.SplitFunc over an interval domain",
  "C18": "all-paths error-propagation analysis on the SSA control-flow graph (I/O error sources, scanner.Err discipline, flush discipline)",
  "C19": "effect analysis (writer purity) + map-range accumulator classification + nondeterminism-source reachability",
  "C20": "whole-package effect analysis: no store to package-level state outside init; zero-rules for go/select/unsafe",
 }
 TEXT = {
- "C09": "Static all-paths decision of a necessary structural clause: Add can only write StartAt, EndAt and the item slice of its receiver. The arithmetic (exact d, clamp, which cues die) is not decided.",
- "C10": "Static decision of the frame condition of Fragment (writes only StartAt/EndAt/slice/permutation). Where the cuts fall is not decided.",
- "C11": "Static decision of the frame condition of Unfragment (writes only EndAt/slice/permutation). Merge semantics and the inverse law are not decided.",
- "C12": "Static decision of the frame conditions of Order (permutes only) and Merge (never writes through its argument; writes only items/regions/styles of the receiver).",
- "C13": "Static decision of the frame conditions of Optimize (only deletes map entries) and RemoveStyling (writes only styling fields).",
- "C14": "Static decision of the frame condition of ForceDuration (writes only EndAt and the slice). Which cues are trimmed is not decided.",
- "C15": "Static decision of the frame condition of ApplyLinearCorrection (writes only StartAt/EndAt, never the slice). Numeric accuracy is not decided.",
+ "C07": "Static decision of the structural clauses of any-to-any conversion: dispatch tables of Open/Write agree, are case-insensitive and default to the invalid-extension error; writers refuse an empty list before writing; the CLI table equals the documented one; writers tolerate every optional part other readers leave unset (no unguarded dereference in the writers' closure). Cue preservation across format pairs is not decided.",
+ "C08": "Static all-paths decision, over the closure of the six readers, Open, the five writers and the exported helpers, that none of the panic classes Go code can raise itself (nil dereference, nil-map store, index/slice out of range, integer division by zero, failing single-result type assertion, explicit panic/Fatal) is reachable, modulo 34 audited residue sites each with a written reason (some backed by supporting rules), and that every loop has a progress argument. Panics inside dependencies, memory exhaustion and the linear-time bound are not decided.",
+ "C09": "Static all-paths decision of necessary structural clauses of Add: writes only StartAt, EndAt and the item slice; both boundaries get the same update; the in-place deletion rewinds the index; CLI sync → Add(-s). The arithmetic (exact d, clamp, which cues die) is not decided.",
+ "C10": "Static decision of necessary structural clauses of Fragment: frame; new pieces are whole copies; Order() after every insertion; CLI. Where the cuts fall is not decided (the known last-listed-cue fault stays invisible).",
+ "C11": "Static decision of necessary structural clauses of Unfragment: frame; delete-rewind; Order() before the scan; same text function on both cues reading every run. Merge semantics and the inverse law are not decided.",
+ "C12": "Static decision close to the statement: Order permutes only, via a stable library sort with a strict < on StartAt of (i, j); Merge appends receiver first then orders, adds definitions only when absent, never writes through its argument, never stores into a nil map. Correctness of sort.SliceStable is trusted.",
+ "C13": "Static decision of: Optimize only deletes entries, under the ranged key, only for non-empty lists, after marking code that reads every reference edge the model's types declare; RemoveStyling writes all and only the styling fields with nil/empty values. Transitive closure depth and write/read-back are not decided.",
+ "C14": "Static decision of necessary structural clauses of ForceDuration: frame; filler only under the flag; equal-duration return precedes every store. Which cues are trimmed is not decided.",
+ "C15": "Static decision of necessary structural clauses of ApplyLinearCorrection: writes only StartAt/EndAt; both mapped by the identical expression; CLI passes a1,d1,a2,d2 in order. Numeric accuracy is not decided.",
  "C17": "Static decision that the reader argument reaches only consumers documented to be independent of read sizes, that no raw Read exists in the package, and that the line splitter requests more data whenever its CR look-ahead byte has not arrived (all paths of the split function enumerated). Given these the parse is a function of the byte sequence; chunk-independence of bufio/encoding/xml/astits themselves is trusted.",
  "C18": "Static all-paths decision that every I/O error source's error is tested and leads to a non-nil error return (or a frozen, reasoned end-of-input conversion), that Scan()==false is always followed by an Err() check before a success return, and that buffered sinks are flushed. Close errors are not demanded by the statement and not checked.",
  "C19": "Static all-paths decision that writers are pure (no effect on the cue list or globals) and deterministic (map iteration reaches output only through sorted/commutative accumulators; no clock/random source but Now). Close to sufficient for the statement, given deterministic encoding/xml and fmt.",
